@@ -638,7 +638,11 @@ class KernelS(KernelX):
                             if not (arm.body and isinstance(arm.body[-1], (ast.Break, ast.Continue, ast.Return, ast.Raise))):
                                 continue
                             t = arm.test
-                            if isinstance(t, ast.Compare) and len(t.ops) == 1 and isinstance(t.ops[0], ast.GtE) and norm(t.left) == X:
+                            # `X >= E[-1]` always suffices; `X > E[-1]` suffices for a strict search `while X > E[b+1]` (at X == E[-1] the
+                            # search stops with b+1 the last index)
+                            strict_search = isinstance(getattr(w, 'test', None), ast.Compare) and isinstance(w.test.ops[0], ast.Gt)
+                            if isinstance(t, ast.Compare) and len(t.ops) == 1 and (isinstance(t.ops[0], ast.GtE) or (isinstance(t.ops[0], ast.Gt) and strict_search)) \
+                                    and norm(t.left) == X:
                                 r = t.comparators[0]
                                 if isinstance(r, ast.Subscript) and isinstance(r.value, ast.Name) and r.value.id == E and self._is_last_index(r.slice, E):
                                     return True
